@@ -51,10 +51,13 @@ def C03B_full (T : Tables) (C : Cert) (P : Table) (S : Strata) (F : Fragment) : 
 
 /-- the same for every CANONICAL tree (`OPM.canon`: SLY's resolution regroups none of its children;
 e.g. every tree `OPM.parse` returns), in ANY expression-start state whose pending frame shifts the
-left spine of the tree, for any valid lookahead (operator or closer) that reduces its right spine -/
+left spine of the tree, for any valid lookahead (operator or closer) that reduces its right spine;
+`preOK`: prefix operators stand only where the start state of that role opens them (`Cert.preBan` lists
+the exceptions, e.g. mindsdb: `NOT` directly after `expr IS` belongs to the two-token `IS NOT`) -/
 def C03B_canon_full (T : Tables) (C : Cert) (P : Table) (F : Fragment) : Prop :=
   ∀ (mode : Mode) (bad : Bool) (e : Expr), canon P e = true → inFragment F e = true →
   ∀ (u : Nat) (ent : Entry), C.starts.get? u = some ent → CtxShifts P ent.kind (leftOps P e) →
+    preOK C ent.kind e = true →
   ∀ (c : Cfg), topState c.st = u → c.la = none → c.las = [] →
   ∀ (tail rest : List Nat) (l : LA) (dc : Nat),
     fetchOf bad tail = some (l, rest, dc) → Valid C P F ent l → Reduces C P F (rightProds P e) l →
@@ -66,14 +69,15 @@ def C03B_canon_full (T : Tables) (C : Cert) (P : Table) (F : Fragment) : Prop :=
 
 theorem C03B_canon_generic (T : Tables) (C : Cert) (P : Table) (F : Fragment)
     (hC : certOK T P F C = true) : C03B_canon_full T C P F :=
-  fun _ _ e hcan hfr _ _ hs hctx c htop hla hlas _ _ _ _ hf hval hred hin =>
-    let ⟨v, hv, h⟩ := sim_canon hC e hcan hfr hs hctx c htop hla hlas hf hval hred hin
+  fun _ _ e hcan hfr _ _ hs hctx hpo c htop hla hlas _ _ _ _ hf hval hred hin =>
+    let ⟨v, hv, h⟩ := sim_canon hC e hcan hfr hs hctx hpo c htop hla hlas hf hval hred hin
     ⟨v, hv, h, abs_tree hC e hfr⟩
 
 theorem C03B_generic (T : Tables) (C : Cert) (P : Table) (S : Strata) (F : Fragment)
-    (hC : certOK T P F C = true) (hO : sqlOrder P S F = true) : C03B_full T C P S F := by
+    (hC : certOK T P F C = true) (hO : sqlOrder P S F = true) (hPC : preCompat C S F = true) :
+    C03B_full T C P S F := by
   intro mode bad e hfr u ent hs hk c htop hla hlas tail rest l dc hf hcl hin
-  obtain ⟨v, hv, h⟩ := sim_sql (mode := mode) hC S hO e hfr hs hk c htop hla hlas hf hcl hin
+  obtain ⟨v, hv, h⟩ := sim_sql (mode := mode) hC S hO hPC e hfr hs hk c htop hla hlas hf hcl hin
   exact ⟨v, hv, h, fun k => run_of_runN h k,
     abs_tree hC _ (by rw [inFragment_addParens]; exact hfr)⟩
 
@@ -84,15 +88,20 @@ theorem phi3a_B_sqlite : sqlOrder Prec_sqlite.P Prec_sqlite.S ExprSim_sqlite.F =
 theorem phi3a_B_mysql : sqlOrder Prec_mysql.P Prec_mysql.S ExprSim_mysql.F = true := by decide +kernel
 theorem phi3a_B_mindsdb : sqlOrder Prec_mindsdb.P Prec_mindsdb.S ExprSim_mindsdb.F = true := by decide +kernel
 
+/-- the prefix positions a dialect does not open (`cert.preBan`) are never used by `addParens` -/
+theorem preCompat_sqlite : preCompat ExprSim_sqlite.cert Prec_sqlite.S ExprSim_sqlite.F = true := by decide +kernel
+theorem preCompat_mysql : preCompat ExprSim_mysql.cert Prec_mysql.S ExprSim_mysql.F = true := by decide +kernel
+theorem preCompat_mindsdb : preCompat ExprSim_mindsdb.cert Prec_mindsdb.S ExprSim_mindsdb.F = true := by decide +kernel
+
 theorem C03B_sqlite :
     C03B_full Tables_sqlite.tables ExprSim_sqlite.cert Prec_sqlite.P Prec_sqlite.S ExprSim_sqlite.F :=
-  C03B_generic _ _ _ _ _ ExprSim_sqlite.cert_ok phi3a_B_sqlite
+  C03B_generic _ _ _ _ _ ExprSim_sqlite.cert_ok phi3a_B_sqlite preCompat_sqlite
 theorem C03B_mysql :
     C03B_full Tables_mysql.tables ExprSim_mysql.cert Prec_mysql.P Prec_mysql.S ExprSim_mysql.F :=
-  C03B_generic _ _ _ _ _ ExprSim_mysql.cert_ok phi3a_B_mysql
+  C03B_generic _ _ _ _ _ ExprSim_mysql.cert_ok phi3a_B_mysql preCompat_mysql
 theorem C03B_mindsdb :
     C03B_full Tables_mindsdb.tables ExprSim_mindsdb.cert Prec_mindsdb.P Prec_mindsdb.S ExprSim_mindsdb.F :=
-  C03B_generic _ _ _ _ _ ExprSim_mindsdb.cert_ok phi3a_B_mindsdb
+  C03B_generic _ _ _ _ _ ExprSim_mindsdb.cert_ok phi3a_B_mindsdb preCompat_mindsdb
 
 theorem C03B_canon_sqlite :
     C03B_canon_full Tables_sqlite.tables ExprSim_sqlite.cert Prec_sqlite.P ExprSim_sqlite.F :=
@@ -123,10 +132,10 @@ def SelectCtx (T : Tables) (C : Cert) (P : Table) (S : Strata) (F : Fragment)
 
 theorem selectCtx_generic (T : Tables) (C : Cert) (P : Table) (S : Strata) (F : Fragment)
     (tSel tFrom uSel : Nat) (hC : certOK T P F C = true) (hO : sqlOrder P S F = true)
-    (h1 : shiftsTo T 0 tSel uSel = true) (h2 : topStartWith C uSel tFrom = true) :
+    (hPC : preCompat C S F = true) (h1 : shiftsTo T 0 tSel uSel = true) (h2 : topStartWith C uSel tFrom = true) :
     SelectCtx T C P S F tSel tFrom uSel := by
   intro mode bad e hfr rest
-  obtain ⟨v, hv, h⟩ := sim_sql_ctx (mode := mode) (bad := bad) hC S hO h1 h2 e hfr
+  obtain ⟨v, hv, h⟩ := sim_sql_ctx (mode := mode) (bad := bad) hC S hO hPC h1 h2 e hfr
     (initCfg (tSel :: (toks C P (addParens S e) ++ tFrom :: rest))) rfl rfl rfl rest rfl
   refine ⟨v, hv, fun k => ?_⟩
   rw [run_of_runN h k]
@@ -137,17 +146,17 @@ theorem selectCtx_generic (T : Tables) (C : Cert) (P : Table) (S : Strata) (F : 
 theorem C03B_select_sqlite :
     SelectCtx Tables_sqlite.tables ExprSim_sqlite.cert Prec_sqlite.P Prec_sqlite.S ExprSim_sqlite.F
       ExprSim_sqlite.tokSELECT ExprSim_sqlite.tokFROM ExprSim_sqlite.selectStart :=
-  selectCtx_generic _ _ _ _ _ _ _ _ ExprSim_sqlite.cert_ok phi3a_B_sqlite
+  selectCtx_generic _ _ _ _ _ _ _ _ ExprSim_sqlite.cert_ok phi3a_B_sqlite preCompat_sqlite
     (by decide +kernel) (by decide +kernel)
 theorem C03B_select_mysql :
     SelectCtx Tables_mysql.tables ExprSim_mysql.cert Prec_mysql.P Prec_mysql.S ExprSim_mysql.F
       ExprSim_mysql.tokSELECT ExprSim_mysql.tokFROM ExprSim_mysql.selectStart :=
-  selectCtx_generic _ _ _ _ _ _ _ _ ExprSim_mysql.cert_ok phi3a_B_mysql
+  selectCtx_generic _ _ _ _ _ _ _ _ ExprSim_mysql.cert_ok phi3a_B_mysql preCompat_mysql
     (by decide +kernel) (by decide +kernel)
 theorem C03B_select_mindsdb :
     SelectCtx Tables_mindsdb.tables ExprSim_mindsdb.cert Prec_mindsdb.P Prec_mindsdb.S ExprSim_mindsdb.F
       ExprSim_mindsdb.tokSELECT ExprSim_mindsdb.tokFROM ExprSim_mindsdb.selectStart :=
-  selectCtx_generic _ _ _ _ _ _ _ _ ExprSim_mindsdb.cert_ok phi3a_B_mindsdb
+  selectCtx_generic _ _ _ _ _ _ _ _ ExprSim_mindsdb.cert_ok phi3a_B_mindsdb preCompat_mindsdb
     (by decide +kernel) (by decide +kernel)
 
 /-! ### what the Level-B fragment is -/
